@@ -268,6 +268,16 @@ type Store struct {
 	HealthErr       error
 	KeySetErr       error
 	DupUserCodes    int // number of times StoreDeviceAuthorization answers ErrDuplicateUserCode first
+	// RotateOnRead, when non-empty, makes every SigningKey() call hand out the next key of this ring (the ring's
+	// keys must also be published through SetSigningKey(..., published...)): a rotation between any two reads.
+	RotateOnRead []*keys.Key
+	rotateN      int
+	// TEVetoAtCreate makes the storage's CreateTokenExchangeRequest hook (the second token-exchange hook, after
+	// ValidateTokenExchangeRequest passed) refuse the request with invalid_target.
+	TEVetoAtCreate bool
+	// TEGrantNil makes ValidateTokenExchangeRequest grant NO scope by calling SetCurrentScopes(nil) (a storage that
+	// builds the granted list with `var granted []string` + append and grants nothing).
+	TEGrantNil bool
 	// StrictJWTProfileScopes makes ValidateJWTProfileScopes refuse (invalid_scope) a request naming a scope outside
 	// KnownScopes instead of silently dropping it; off by default.
 	StrictJWTProfileScopes bool
@@ -933,11 +943,18 @@ func (s *Store) GetRefreshTokenInfo(ctx context.Context, clientID, token string)
 func (s *Store) SigningKey(ctx context.Context) (op.SigningKey, error) {
 	s.mu.Lock()
 	defer s.mu.Unlock()
-	_, ferr := s.enter("SigningKey", "", "", "", nil)
+	idx, ferr := s.enter("SigningKey", "", "", "", nil)
 	if ferr != nil {
 		return nil, ferr
 	}
-	return keys.OPSigningKey{K: s.signing}, nil
+	k := s.signing
+	if len(s.RotateOnRead) > 0 {
+		// a key rotation may happen between any two reads: every read hands out the next key of the ring
+		k = s.RotateOnRead[s.rotateN%len(s.RotateOnRead)]
+		s.rotateN++
+	}
+	s.leave(idx, k.Kid+"/"+string(k.Alg), nil)
+	return keys.OPSigningKey{K: k}, nil
 }
 
 func (s *Store) SignatureAlgorithms(ctx context.Context) ([]jose.SignatureAlgorithm, error) {
@@ -947,7 +964,13 @@ func (s *Store) SignatureAlgorithms(ctx context.Context) ([]jose.SignatureAlgori
 	if ferr != nil {
 		return nil, ferr
 	}
-	return []jose.SignatureAlgorithm{s.signing.Alg}, nil
+	algs := []jose.SignatureAlgorithm{s.signing.Alg}
+	for _, k := range s.RotateOnRead {
+		if !slices.Contains(algs, k.Alg) {
+			algs = append(algs, k.Alg)
+		}
+	}
+	return algs, nil
 }
 
 func (s *Store) KeySet(ctx context.Context) ([]op.Key, error) {
@@ -1280,6 +1303,9 @@ func (s *Store) validateTokenExchangeRequest(ctx context.Context, req op.TokenEx
 	if len(allowed) == 0 {
 		allowed = []string{oidc.ScopeOpenID}
 	}
+	if s.TEGrantNil {
+		allowed = nil
+	}
 	req.SetCurrentScopes(allowed)
 	if s.TEPolicy == TEImpersonate && s.TEImpersonateAs != "" {
 		req.SetSubject(s.TEImpersonateAs)
@@ -1291,8 +1317,16 @@ func (s *Store) validateTokenExchangeRequest(ctx context.Context, req op.TokenEx
 func (s *Store) createTokenExchangeRequest(ctx context.Context, req op.TokenExchangeRequest) error {
 	s.mu.Lock()
 	defer s.mu.Unlock()
-	_, ferr := s.enter("CreateTokenExchangeRequest", req.GetSubject(), req.GetClientID(), "", nil)
-	return ferr
+	idx, ferr := s.enter("CreateTokenExchangeRequest", req.GetSubject(), req.GetClientID(), "", nil)
+	if ferr != nil {
+		return ferr
+	}
+	if s.TEVetoAtCreate {
+		err := oidc.ErrInvalidTarget().WithDescription("vstore policy veto at CreateTokenExchangeRequest")
+		s.leave(idx, "", err)
+		return err
+	}
+	return nil
 }
 
 func (s *Store) getPrivateClaimsFromTokenExchangeRequest(ctx context.Context, req op.TokenExchangeRequest) (map[string]any, error) {
